@@ -207,20 +207,25 @@ func timeGrid(r *core.Run) {
 		for _, t := range []time.Time{{}, nz, time.Unix(0, 0).UTC(), time.Unix(0, 0), time.Unix(0, 999999999), time.Unix(1, 0), time.Unix(-1, 0),
 			time.Date(1970, 1, 1, 1, 0, 0, 0, time.FixedZone("", 3600)), time.Time{}.Add(1), time.Date(1, 1, 1, 0, 0, 0, 0, time.FixedZone("", -3600)),
 			time.Date(1, 1, 1, 1, 0, 0, 0, time.FixedZone("", 3600)), time.Date(9999, 12, 31, 23, 59, 59, 0, time.UTC), time.Unix(1<<40, 0)} {
-			r.Eval(1)
-			si := &signature.SignerInfo{SignedAttributes: signature.SignedAttributes{SigningScheme: scheme, SigningTime: t}}
-			got, err := si.AuthenticSigningTime()
-			want := scheme == signature.SigningSchemeX509SigningAuthority && !t.IsZero()
-			desc := fmt.Sprintf("AuthenticSigningTime(scheme %q, time %v)", scheme, t)
-			switch {
-			case want && (err != nil || !got.Equal(t)):
-				r.Violation("authentic-time-unavailable", desc+fmt.Sprintf(" = %v, %v", got, err), desc)
-			case !want && err == nil:
-				r.Violation("authentic-time-available:"+string(scheme), desc+fmt.Sprintf(" = %v without error", got), desc)
-			default:
-				r.Count("authentic-time-cells", 1)
+			// the other optional attributes of a SignerInfo must not matter: an
+			// expiry before / at / after the signing time, or none
+			for _, exp := range []time.Time{{}, t.Add(-time.Hour), t, t.Add(time.Hour), time.Unix(0, 0)} {
+				r.Eval(1)
+				si := &signature.SignerInfo{SignedAttributes: signature.SignedAttributes{SigningScheme: scheme, SigningTime: t, Expiry: exp,
+					ExtendedAttributes: []signature.Attribute{{Key: "k", Critical: true, Value: 1}}}, UnsignedAttributes: signature.UnsignedAttributes{SigningAgent: "a"}}
+				got, err := si.AuthenticSigningTime()
+				want := scheme == signature.SigningSchemeX509SigningAuthority && !t.IsZero()
+				desc := fmt.Sprintf("AuthenticSigningTime(scheme %q, time %v, expiry %v)", scheme, t, exp)
+				switch {
+				case want && (err != nil || !got.Equal(t)):
+					r.Violation("authentic-time-unavailable", desc+fmt.Sprintf(" = %v, %v", got, err), desc)
+				case !want && err == nil:
+					r.Violation("authentic-time-available:"+string(scheme), desc+fmt.Sprintf(" = %v without error", got), desc)
+				default:
+					r.Count("authentic-time-cells", 1)
+				}
+				r.Nontrivial(desc)
 			}
-			r.Nontrivial(desc)
 		}
 	}
 	// missing signer info is an argument error
